@@ -208,8 +208,8 @@ class SSModel(object):
             return SSModel(A, B, C, D, method=method)
 
         if method == "zoh":
-            I = np.eye(self.A.shape[0])
-            B = la.solve(self.A - I, A.dot(self.B))
+            E, P, Q = expmint.getEPQ(A, h, 0)
+            B = la.solve(P, self.B)
             C = self.C.copy()
             D = self.D.copy()
             return SSModel(A, B, C, D, method=method)
